@@ -44,7 +44,7 @@ func (g *c05gen) cmd(ci int, profile string) []B {
 	k := pick(r, g.keys)
 	fam := g.fam[k]
 	if profile == "mixed" && r.Bool(0.12) {
-		fam = pick(r, []string{"reg", "ctr", "list", "set", "hash", "zset"})
+		fam = pick(r, []string{"reg", "ctr", "list", "set", "hash", "zset", "stream"})
 	}
 	if r.Bool(0.15) {
 		// KEYS is not a single-key command and is not required to be an atomic
@@ -142,6 +142,19 @@ func (g *c05gen) cmd(ci int, profile string) []B {
 		default:
 			return bs("zrange", k, "0", "-1", "withscores")
 		}
+	case "stream":
+		switch r.Intn(8) {
+		case 0, 1, 2:
+			return bs("xadd", k, "*", "f", g.val(ci))
+		case 3:
+			return bs("xadd", k, pick(r, []string{"1-1", "2-1", "3-1", "5-0", "9-9"}), "f", g.val(ci))
+		case 4:
+			return bs("xadd", k, "maxlen", pick(r, []string{"1", "2"}), "*", "f", g.val(ci))
+		case 5:
+			return bs("xadd", k, "nomkstream", "*", "f", g.val(ci))
+		default:
+			return bs("xrange", k, "-", "+")
+		}
 	case "set":
 		m := fmt.Sprintf("m%d", r.Intn(3))
 		switch r.Intn(6) {
@@ -200,6 +213,8 @@ func auditSteps(keys []string, fam map[string]string) []Step {
 			steps = append(steps, Step{Kind: "cmd", Args: bs("hgetall", k)}, Step{Kind: "cmd", Args: bs("hlen", k)})
 		case "zset":
 			steps = append(steps, Step{Kind: "cmd", Args: bs("zrange", k, "0", "-1", "withscores")})
+		case "stream":
+			steps = append(steps, Step{Kind: "cmd", Args: bs("xrange", k, "-", "+")})
 		}
 	}
 	steps = append(steps, Step{Kind: "cmd", Args: bs("keys", "*")})
@@ -214,14 +229,14 @@ func genC05(r *core.Rand, env *core.Env, run int) *Scenario {
 	sc.Knobs = Knobs{ShardNum: pick(r, []int{1, 1, 2, 3, 8, 1024}), Databases: 1, YieldRMW: r.Bool(0.8), MaxSteps: 30000,
 		Strategy: pick(r, []int{0, 0, 1, 1, 2, 3}), PreemptPct: pick(r, []int{5, 15, 30, 50})}
 	sc.Knobs.ReplyYield = r.Bool(0.5)
-	profile := pick(r, []string{"reg", "ctr", "list", "set", "hash", "zset", "mixed", "mixed"})
+	profile := pick(r, []string{"reg", "ctr", "list", "set", "hash", "zset", "stream", "mixed", "mixed"})
 	nk := 1 + r.Intn(3)
 	g := &c05gen{r: r, fam: map[string]string{}}
 	for i := 0; i < nk; i++ {
 		k := fmt.Sprintf("k%d", i)
 		g.keys = append(g.keys, k)
 		if profile == "mixed" {
-			g.fam[k] = pick(r, []string{"reg", "ctr", "list", "set", "hash", "zset"})
+			g.fam[k] = pick(r, []string{"reg", "ctr", "list", "set", "hash", "zset", "stream"})
 		} else {
 			g.fam[k] = profile
 		}
@@ -245,6 +260,8 @@ func genC05(r *core.Rand, env *core.Env, run int) *Scenario {
 				sc.Knobs.Preload = append(sc.Knobs.Preload, bs("hset", k, "f0", "init"))
 			case "zset":
 				sc.Knobs.Preload = append(sc.Knobs.Preload, bs("zadd", k, "1", "z0", "2", "zx"))
+			case "stream":
+				sc.Knobs.Preload = append(sc.Knobs.Preload, bs("xadd", k, "1-0", "f", "init"))
 			}
 		}
 	}
